@@ -26,7 +26,9 @@ WORDS = ['STARBUCKS', 'Netflix.com', 'UBER', 'EATS', 'AMZN', 'Mktp', 'US*1A2B3',
          'McDonald\'s', 'F12345', 'C++', 'A.B.', '(PARKING)', '[GARAGE]', 'R&D', '50%', 'PAY$', '^TOP', 'a|b', 'q?', '{x}', 'ab{2}', 'back\\slash', 'say"hi"', "it's", '日本', '☕',
          'café'.replace('é', 'e'), 'T-MOBILE', 'AT&T', '7-ELEVEN', 'H&M', 'E*TRADE', '24', 'PAYMENT', 'THANK', 'YOU',
          # typographic quotes as banks print them (not the ASCII ' and ")
-         'MCDONALD\u2019S', 'LOWE\u2019s', '\u201cORIGINAL\u201d', '\u2018N\u2019', 'Caf\u00e9']
+         'MCDONALD\u2019S', 'LOWE\u2019s', '\u201cORIGINAL\u201d', '\u2018N\u2019', 'Caf\u00e9',
+         # HTML character references as some banks export them: plain text to every rule
+         'AT&amp;T', 'MACY&#39;S', 'A&AMP', '&quot;Q&quot;', 'B&lt;C', 'R&D;']
 SUFFIXES = ['', '', ' #1234', ' 00012345', ' WA', ' CA', ' 98101', ' SEATTLE WA', ' #12 SEATTLE WA', ' 1234567 800-555-1212 WA', ' DES:PAYROLL ID:99', ' ny', ' #4712A SEATTLE WA', ' #12-B']
 PREFIXES = ['', '', '', 'APLPAY ', 'SQ *', 'TST* ', 'TST*', 'SP ', 'PP*', 'GOOGLE *', 'sq *', 'Aplpay ']
 SEPS = [' ', ' ', ' ', '  ', '   ', ' - ', '*', ' #77 ', ' #4712A ', ' #12-B ', ' #1234/', ' #9', '#5 ']
